@@ -412,8 +412,9 @@ def run(tier, only=None):
         if only and only != name:
             continue
         t0 = time.time()
-        st = explore.explore(h, mode=mode, k=k, params=params, repo_root=core.REPO, time_cap=(600 if tier == "quick" else 1500))
-        bound, flags = RULES.get(name, ("dev(%s) over coverage subsets, obs presence, climatology mode, one missing cell per (file, field, case), perturbed input; %r" % (k, params), ("differential", "clim", "obsrange")))
+        st = explore.explore(h, mode=mode, k=k, params=params, repo_root=core.REPO, time_cap=(600 if tier == "quick" else 3000))
+        bound, flags = RULES.get(name, ("dev(%s) over coverage subsets, obs presence, climatology mode, one missing cell per (file, field, case), perturbed input; %r" % (k, params),
+                                        ("differential", "clim", "obsrange") if (params or {}).get("n", 2) >= 2 else ("clim", "obsrange")))
         subs.append(core.Sub.from_e1(name, st, bound=bound,
                                      rule="one execution = one dataset, all requests (field sets x inputs x axes x slices) compared with the reference; "
                                           "non-trivial = a case valid for all and a case missing in one file but present in another (or a strict coverage subset); "
